@@ -1,13 +1,49 @@
+
+import os as _os, subprocess as _sp
+
+
+class _FocusEnv(dict):
+    """search_env of bin/check's directed search (it runs only after a table theorem or the correspondence
+    broke and the ordinary run showed no failing input).  Evaluated when the search starts - the tables are
+    regenerated and the runner is rebuilt by then: asks the runner (entry C12-focus) which handlers' regenerated
+    rows fail a table check and hands their names to the harness as VERIF_FOCUS; with no broken row to name
+    (a sweep, a closed-world check, a correspondence mismatch) the static part alone applies."""
+
+    def items(self):
+        out = dict(self)
+        root = _os.path.dirname(_os.path.dirname(_os.path.dirname(_os.path.abspath(_FocusEnv.items.__code__.co_filename))))
+        try:
+            p = _sp.run([_os.path.join(root, "runner", "runner"), "C12-focus", "/dev/null"], stdout=_sp.PIPE, stderr=_sp.DEVNULL,
+                        timeout=120, text=True)
+            names = [l.split()[1] for l in p.stdout.splitlines() if l.startswith("FOCUS ") and len(l.split()) == 2]
+        except Exception:
+            names = []
+        if names:
+            out["VERIF_FOCUS"] = ",".join(sorted(set(names)))
+            out.update(self.focused)
+        else:
+            out.update(self.unfocused)
+        return out.items()
+
+
+_search_env = _FocusEnv(dict(VERIF_HIST=6), VERIF_DIRECTED=1)
+_search_env.focused = dict(VERIF_HIST=24)
+_search_env.unfocused = dict()
+
 PROP = dict(
         coq="Properties/C12.v",
         workloads=[
             dict(name="authority-matrix", go_test="TestC12", runner="C12",
                  env=dict(quick=dict(VERIF_HIST=2), thorough=dict(VERIF_HIST=8))),
         ],
-        rule="case = one message run through the MsgServiceRouter on its own store branch of a prepared state holding one position of every kind "
-             "(vault, stable-mint vault, locker, lend, borrow, resting limit order, 20 market-making orders, farm position, limit bid, running auction), "
-             "reached after a random short history of the owner's own operations: every method of the vault / locker / lend / liquidity / auctionsV2 msg servers "
-             "x {owner, non-owner, fresh random funded account}; plus every variant of bindings.ComdexMessages (read off the Go type by reflection) through the real "
+        search_env=_search_env,
+        rule="case = one message run through the MsgServiceRouter on its own store branch of a prepared state in which THREE accounts each hold one position of every kind "
+             "(vault, locker, two lend positions, borrow, resting limit order, market-making orders, farm position, limit bid; one shared stable-mint vault, a running auction) "
+             "with the numeric ids of the different kinds deliberately misaligned across owners (vault #n, lend #n, borrow #n belong to three different accounts; borrow #n sits on lend #n+3), "
+             "reached after a random short history of the owner's own operations: every method of the vault / locker / lend / liquidity / auctionsV2 msg servers naming the positions of EVERY owner "
+             "x signer {the owner, each of the two other position owners (who own a position of another kind with the same numeric id and one of the same kind with another id), an account owning nothing, "
+             "a fresh random funded account}; observed: result class, digest of all DeFi stores + bank before/after, digest of the named owner's balances and position records before/after; "
+             "the runner demands that every position message of the regenerated table was run by its owner successfully, by another position owner, and (id-naming messages) by a signer owning the same id of another kind; plus every variant of bindings.ComdexMessages (read off the Go type by reflection) through the real "
              "CustomMessenger.DispatchMsg x chain id {comdex-1, comdex-test3, verif-1, comdex-2} x sender {governance contract, emission contract, the other network's contract, random}; "
              "plus MsgKillSwitch x {admin, 5 others}. non-trivial = a non-owner run of a position message, a wasm case the ladder must reject, a non-admin kill switch; "
              "distinct by digest of (handler, signer, history length, class) / (variant, chain, sender)",
